@@ -363,6 +363,7 @@ namespace vh
         std::string mode, out, replay;
         long long seed = 1;
         long n = 1000, max_size = 100, scale = 20;
+        double shrink_budget = 40;
         long enum_from = 0, enum_to = -1;
         (void) enum_from;
         (void) enum_to;
@@ -397,6 +398,8 @@ namespace vh
                 out = next();
             else if (a == "--size-arg")
                 cfg().arg = atol(next().c_str());
+            else if (a == "--shrink-budget")
+                shrink_budget = atof(next().c_str());
             else if (a == "--case-timeout")
                 cfg().case_timeout = static_cast<unsigned>(atol(next().c_str()));
             else if (a == "--known")
@@ -445,12 +448,17 @@ namespace vh
             Stats& st = stats();
             std::vector<uint8_t> last_fail;
             bool have_fail = false;
+            double first_fail_at = 0;
             std::string lf_kind, lf_detail, lf_desc;
             const int sc = static_cast<int>(scale);
             auto result = rc::detail::checkTestable(
                 [&]()
                 {
                     auto bytes = *rc::gen::scale(static_cast<double>(sc), rc::gen::arbitrary<std::vector<uint8_t>>());
+                    // bounded shrinking: once the budget is used up every further candidate is
+                    // accepted as "passing", which ends the shrink search at the current minimum
+                    if (st.frozen && wall() - first_fail_at > shrink_budget)
+                        return;
                     Ctx c;
                     Outcome o = run_one(bytes, c, true);
                     if (o == DISC)
@@ -459,6 +467,8 @@ namespace vh
                     {
                         if (st.frozen)
                             st.shrink_steps++;
+                        else
+                            first_fail_at = wall();
                         st.frozen = true;  // statistics stop at the first failure (shrinking follows)
                         last_fail = bytes;
                         have_fail = true;
